@@ -319,3 +319,50 @@ func instrDominatesLoose(a, b ssa.Instruction) bool {
 	}
 	return a.Block().Dominates(b.Block())
 }
+
+// checkBitMasks: BIT-2. A test of the form (x & m) == k with a mask m that is a single shifted bit (1 << s, s not the
+// constant 0) compares with 0 or with m itself; comparing with 1 is true only for s == 0, so every other bit silently
+// reads as "not set".
+func checkBitMasks(c *Ctx, r *Run, rule string) {
+	r.Rule(rule, "single-bit mask tests compare with zero or with the mask, never with the constant 1")
+	sites := 0
+	for _, p := range c.LibPkgs() {
+		for _, top := range funcsOfPkg(c, c.SSA[p.Types]) {
+			withAnon(top, func(fn *ssa.Function) {
+				nth := 0
+				allInstrs(fn, func(in ssa.Instruction) {
+					cmp, ok := in.(*ssa.BinOp)
+					if !ok || (cmp.Op != token.EQL && cmp.Op != token.NEQ) {
+						return
+					}
+					and, ok := stripConv(cmp.X).(*ssa.BinOp)
+					k, isK := constInt(cmp.Y)
+					if !ok || and.Op != token.AND || !isK {
+						return
+					}
+					// the mask: a shift of 1 by a non-constant or non-zero amount
+					var shift *ssa.BinOp
+					for _, side := range []ssa.Value{and.X, and.Y} {
+						if sh, isSh := stripConv(side).(*ssa.BinOp); isSh && sh.Op == token.SHL {
+							if one, isOne := constInt(sh.X); isOne && one == 1 {
+								shift = sh
+							}
+						}
+					}
+					if shift == nil {
+						return
+					}
+					if s, isC := constInt(shift.Y); isC && s == 0 {
+						return
+					}
+					sites++
+					nth++
+					r.Check(rule, fmt.Sprintf("%s|mask test #%d", c.FuncName(fn), nth), c.Pos(cmp.Pos()), k == 0,
+						"the masked value is compared with zero",
+						fmt.Sprintf("(x & (1 << %s)) is compared with %d: the test is true only when the shift is 0, every other bit position always reads as unset (for a Fiat-Shamir challenge: most challenge bits become constant and the proof loses its soundness)", path(shift.Y), k))
+				})
+			})
+		}
+	}
+	r.Hold(rule, "mask-tests|examined", "", fmt.Sprintf("%d single-bit mask tests examined", sites))
+}
